@@ -42,9 +42,9 @@ def gen(tier, seed, shard, nshards):
         if k % nshards != shard:
             continue
         rng = util.rng_for("C19", seed, k)
-        p = int(rng.integers(2, 7))
+        p = int(rng.integers(2, 7)) if k % 3 else int(rng.integers(9, 13))
         for _ in range(50):
-            out = gmat.random_dag_masks(rng, p, density=rng.uniform(0.15, 0.6))
+            out = gmat.random_dag_masks(rng, p, density=rng.uniform(0.15, 0.6) if p < 9 else rng.uniform(0.1, 0.3))
             inn = G.transpose(out)
             n_src = sum(1 for i in range(p) if not inn[i])
             if n_src >= 2 or rng.random() < 0.15:
